@@ -20,6 +20,16 @@ def viol(ob, exs, detail, key, sample, n):
 def upvar_index(ex, fn, pattern):
     ts = ex.upvar_types(fn)
     hits = [i for i, t in ts.items() if re.search(pattern, t)]
+    if not hits:
+        # the value may sit in a private newtype of the module (`PeerSemaphores(Arc<DashMap<..>>)`)
+        for i, t in ts.items():
+            head = re.sub(r'^(&(mut )?)?(\w+::)*', '', t.strip()).split('<')[0]
+            try:
+                fs = struct_fields(SRC, head)
+            except Exception:
+                continue
+            if any(re.search(pattern, ft) for ft in fs.types):
+                hits.append(i)
     if len(hits) != 1:
         raise NotFound(f'upvar matching {pattern}: {ts}')
     return hits[0]
@@ -209,7 +219,7 @@ def ob_call(report):
                     return viol(ob, [ex], 'request without sender identity is not refused up front', 'call-no-sender', path_summary(r), len(res))
                 continue
             ent = [e for e in evs if e.kind == 'entry']
-            if len(ent) != 1 or vname(ent[0].args[0]) != f'gen.{i_map}.deref' or not (isinstance(ent[0].args[1], z3.ExprRef) and e2.solve(r.pc + [ent[0].args[1] != sender], want_model=False)[0] == 'unsat'):
+            if len(ent) != 1 or not re.fullmatch(re.escape(f'gen.{i_map}') + r'(\.0|\.\*)*\.deref(\.0)*', vname(ent[0].args[0])) or not (isinstance(ent[0].args[1], z3.ExprRef) and e2.solve(r.pc + [ent[0].args[1] != sender], want_model=False)[0] == 'unsat'):
                 return viol(ob, [ex], f'the semaphore is not looked up in the layer\'s shared table under the request\'s own peer id: {[repr(e)[:120] for e in ent]}', 'call-key', path_summary(r), len(res))
             oi = [e for e in evs if e.kind == 'or-insert']
             hits = [e for e in evs if e.kind == 'lookup-hit']
